@@ -1,10 +1,13 @@
 -- C18: security estimate and acceptance policy — property theorems about Winter/Model/Security.lean
 -- (helper lemmas: WinterProofs/Lemmas/C18.lean).  The model is tied to the code by the correspondence
 -- harness (harness/src/bin/c18.rs); the numeric limits come from Winter/Gen/Limits.lean, regenerated
--- from air/src/options.rs and air/src/proof/mod.rs on every run.
+-- from air/src/options.rs and air/src/proof/mod.rs on every run; the conjectured estimate is moreover
+-- tied by translation (section 7: Winter/Gen/Security.lean is regenerated from `get_conjectured_security`
+-- on every run and proved equal to the model for all arguments).
 import Winter.Model.Security
 import Winter.Model.Field
 import WinterProofs.Lemmas.C18
+import WinterProofs.Lemmas.C18Gen
 
 namespace C18
 open Model.Security Gen.Limits C18L
@@ -412,5 +415,53 @@ theorem natOps_laws : @FloatLaws Nat natOps (· ≤ ·) := by
 example : ∀ m ∈ @mRange Nat natOps 64,
     (@FloatOps.ofNat Nat natOps 0) ≤ (@mid Nat natOps 8 (64 * 8) 64 m).base ∧
     (@mid Nat natOps 8 (64 * 8) 64 m).base ≤ (@FloatOps.ofNat Nat natOps 1) := by decide
+
+-- =================================================================== 7. tie T: the regenerated function
+-- `Gen.Security.get_conjectured_security` (+ `_ok`) is what translate/gen.py makes of
+-- air/src/proof/mod.rs on this run; `C18G.genConj` / `genConjOk` apply it to the accessor values of the
+-- model's option record.  The theorems below make the statements of section 3 statements about that
+-- regenerated definition: an edit of the Rust function that changes its value or its panic behaviour on
+-- any argument tuple breaks one of them.
+open C18G in
+/-- ★ the hand-written model and the regenerated function agree for ALL arguments: same value, and
+    the model panics exactly when the regenerated no-overflow condition fails -/
+theorem conjectured_gen_eq_model (o : Options) (bits n cr : Nat) (hq : o.numQueries < 4294967296) :
+    conjectured o bits n cr =
+      if genConjOk o bits n cr then .ok (genConj o bits n cr)
+      else .panic (match conjectured o bits n cr with | .panic s => s | .ok _ => "") := by
+  cases hk : genConjOk o bits n cr with
+  | true => simpa using (gen_conjectured_ok_iff o bits n cr _ hq).mpr ⟨hk, rfl⟩
+  | false =>
+    obtain ⟨s, hs⟩ := (gen_conjectured_panics_iff o bits n cr hq).mpr hk
+    simp [hs]
+
+open C18G in
+/-- ★ the exact panic guard, on the regenerated function: for options the constructor accepts the
+    regenerated side condition (every `u32`/`usize` operation in range, no `ilog2(0)`) is the guard
+    `conjGuard` of `conjectured_panics_iff` -/
+theorem gen_ok_iff_guard {o : Options} (ho : o.accepted = true) (bits n cr : Nat) :
+    genConjOk o bits n cr = true ↔ conjGuard o bits n := by
+  have hq : o.numQueries < 4294967296 := by have := (accepted_bounds ho).2.1; omega
+  constructor
+  · intro hk
+    exact ((conjectured_ok_iff ho bits n cr _).mp
+      ((gen_conjectured_ok_iff o bits n cr _ hq).mpr ⟨hk, rfl⟩)).1
+  · intro hg
+    exact ((gen_conjectured_ok_iff o bits n cr _ hq).mp
+      ((conjectured_ok_iff ho bits n cr _).mpr ⟨hg, rfl⟩)).1
+
+open C18G in
+/-- ★ the documented formula, on the regenerated function: for every admissible tuple the translated
+    Rust code does not panic and returns the documented value -/
+theorem gen_conjectured_eq_documented {o : Options} {bits n : Nat} (cr : Nat) (h : Admissible o bits n) :
+    genConjOk o bits n cr = true ∧
+      (genConj o bits n cr : Int) = documented bits o.ext.degree n o.blowup o.numQueries o.grinding cr := by
+  have hq : o.numQueries < 4294967296 := by have := (accepted_bounds h.1).2.1; omega
+  obtain ⟨l, h1, h2⟩ := conjectured_eq_documented cr h
+  obtain ⟨k1, k2⟩ := (gen_conjectured_ok_iff o bits n cr l hq).mp h1
+  exact ⟨k1, by rw [k2]; exact h2⟩
+
+example : C18G.genConjOk ⟨27, 8, 16, .quadratic, 8, 127⟩ 64 (2 ^ 20) 128 = true ∧
+    C18G.genConj ⟨27, 8, 16, .quadratic, 8, 127⟩ 64 (2 ^ 20) 128 = 96 := by decide
 
 end C18
